@@ -12,7 +12,58 @@ class B58Error(ValueError):
     pass
 
 
+LONG = 1024      # (above this the byte-wise algorithm - quadratic in interpreted Python - gives way to chunked big-integer arithmetic)
+_P10 = 58 ** 10
+
+
+def _encode_long(data):
+    """Same function by a different route (for long inputs only): the value as ONE integer, ten Base58 digits per division.
+    Cross-checked against the byte-wise algorithm on every length up to 300 by ref.selftest."""
+    zeros = 0
+    while zeros < len(data) and data[zeros] == 0:
+        zeros += 1
+    n = int.from_bytes(data[zeros:], "big")
+    groups = []
+    while n:
+        n, r = divmod(n, _P10)
+        groups.append(r)
+    out = []
+    for gi, g in enumerate(groups):
+        ds = []
+        for _ in range(10):
+            g, d = divmod(g, 58)
+            ds.append(ALPHABET[d])
+        out.append("".join(reversed(ds)))
+    body = "".join(reversed(out)).lstrip(ALPHABET[0])
+    return "1" * zeros + body
+
+
+def _decode_long(s):
+    zeros = 0
+    while zeros < len(s) and s[zeros] == "1":
+        zeros += 1
+    for ch in s:
+        if ch not in _INDEX:
+            raise B58Error("bad character %r" % ch)
+    body = s[zeros:]
+    n = 0
+    head = len(body) % 10
+    v = 0
+    for ch in body[:head]:
+        v = v * 58 + _INDEX[ch]
+    n = v
+    for i in range(head, len(body), 10):
+        v = 0
+        for ch in body[i:i + 10]:
+            v = v * 58 + _INDEX[ch]
+        n = n * _P10 + v
+    raw = n.to_bytes((n.bit_length() + 7) // 8, "big") if n else b""
+    return b"\x00" * zeros + raw
+
+
 def encode(data):
+    if len(data) > LONG:
+        return _encode_long(data)
     zeros = 0
     while zeros < len(data) and data[zeros] == 0:
         zeros += 1
@@ -31,6 +82,8 @@ def encode(data):
 
 
 def decode(s):
+    if len(s) > LONG + LONG // 2:
+        return _decode_long(s)
     zeros = 0
     while zeros < len(s) and s[zeros] == "1":
         zeros += 1
